@@ -1979,6 +1979,21 @@ def fam_misc(tier, seed):
         add_const_witnesses(s_, seed, maxn=1)
         out.append(s_)
     out.append(struct(om, "OkCtxDbg", 14, json.loads(json.dumps(fs[:3])), debug=True, default={"form": "=", "value": 0x2AAA}, family="MISC"))
+    # user traits called Copy / Clone in scope: the generated types must still be core Copy + Clone (seeded C06_r13:
+    # hand-written `impl Copy for X {}` with a bare trait name implements the user's trait instead)
+    cm = "misc_copyctx"
+    out.append({"kind": "raw", "mod": cm, "name": "Copy", "path": "%s::Copy" % cm, "defines": ["Copy", "Clone"],
+                "lines": ["/// a user trait called Copy", "pub trait Copy {", "    /// tag", "    fn tag(&self) -> u8 {", "        1", "    }", "}",
+                          "/// a user trait called Clone", "pub trait Clone {}"]})
+    out.append(struct(cm, "CpInner", 4, [field("x", [(0, 3)], T_uint(4))], debug=True, family="MISC"))
+    cfs = [field("run", [(0, 0)], T_bool()), field("inner", [(4, 7)], T_nested("CpInner", 4)), field("cnt", [(8, 13)], T_uint(6)), field("s", [(16, 23)], T_int(8))]
+    for i, (base, dflt, dbg) in enumerate(((24, {"form": "=", "value": 0x567}, False), (32, None, True), (24, None, False))):
+        out.append(struct(cm, "CpCtx%d" % i, base, json.loads(json.dumps(cfs)), default=dflt, debug=dbg, family="MISC"))
+    out.append(mk_enum(cm, "CpEnum", 2, [0, 1, 3], family="MISC"))
+    out.append({"kind": "raw", "mod": cm, "name": "cp_probe", "path": "%s::cp_probe" % cm, "prop": "C06", "clause": "generated types are core Copy + Clone in a module that defines its own Copy / Clone traits",
+                "lines": ["/// needs core Copy + Clone", "pub const fn need<T: ::core::marker::Copy + ::core::clone::Clone>() {}",
+                          "/// the probes", "pub const CP_PROBE: () = {", "    need::<CpInner>();", "    need::<CpCtx0>();", "    need::<CpCtx1>();", "    need::<CpCtx2>();", "    need::<CpEnum>();", "};",
+                          "/// use after move needs Copy", "pub fn cp_dup(w: CpCtx0, e: CpEnum) -> (CpCtx0, CpCtx0, CpEnum, CpEnum) {", "    (w, w, e, e)", "}"]})
     # a permuted view and a plain view of the same bits with the same type, both readable (either order)
     for i, (base, w, off) in enumerate(((16, 8, 0), (32, 8, 8), (24, 8, 16), (64, 16, 32))):
         hw = w // 2
